@@ -61,6 +61,8 @@ var shapes = []shape{
 	// an unguarded yield succeeds first; a guarded yield written after it still decides whether the step stops
 	{Name: "plain-yield-then-guarded-yield", Gen: "gen := <{|i| yield i; yield 99 if i < 3; recur(i + 1)}>"},
 	{Name: "plain-yield-recur-then-guarded-yield", Gen: "gen := <{|i| yield i; recur(i + 1); yield 99 if i < 3}>"},
+	// the recur is deferred: it runs when the body is left, also when the guard stops the step
+	{Name: "deferred-recur", Gen: "gen := <{|i| defer recur(i + 1); yield i if i < 3}>"},
 	{Name: "nil-first-yield", Gen: "gen := <{|i| yield [nil, i][i % 2] if i < 4; yield 99; recur(i + 1); 77}>"},
 }
 
@@ -128,7 +130,7 @@ func (s *mstate) next(it *mit) (int, bool) {
 			return v, false
 		}
 		return 0, true
-	case "recur-then-yield", "plain-yield-recur-then-guarded-yield":
+	case "recur-then-yield", "plain-yield-recur-then-guarded-yield", "deferred-recur":
 		v := it.i
 		it.i++
 		if v < 3 {
